@@ -210,6 +210,8 @@ HANDMADE = [
     ([('a', 'INPUT', ()), ('b', 'INPUT', ()), ('n1', 'NOT', ('a',)), ('n2', 'NOT', ('n1',)), ('i', 'IFF', ('b',)), ('g1', 'AND', ('a', 'b')), ('g2', 'AND', ('n2', 'i')), ('o', 'XOR', ('g1', 'g2'))], ['o', 'g2', 'g1']),
     # nothing but inputs as outputs
     ([('a', 'INPUT', ()), ('b', 'INPUT', ())], ['b', 'b', 'a']),
+    # a pseudo-unary gate whose *ignored* operand is shared with the gate that reads it (x and not-y is not a contradiction)
+    ([('x', 'INPUT', ()), ('y', 'INPUT', ()), ('r', 'RNOT', ('x', 'y')), ('l', 'LNOT', ('y', 'x')), ('g', 'AND', ('x', 'r')), ('h', 'NOR', ('x', 'l')), ('k', 'OR', ('y', 'l', 'g'))], ['g', 'h', 'k']),
     # chains whose unary gates are all negations / all buffers (the two post-conditions of MergeUnaryOperators), inner links read from outside
     ([('x', 'INPUT', ()), ('y', 'INPUT', ()), ('n1', 'NOT', ('x',)), ('n2', 'NOT', ('n1',)), ('n3', 'NOT', ('n2',)), ('o', 'AND', ('n3', 'y'))], ['o', 'n3', 'n2']),
     ([('x', 'INPUT', ()), ('y', 'INPUT', ()), ('b1', 'IFF', ('x',)), ('b2', 'IFF', ('b1',)), ('b3', 'IFF', ('b2',)), ('o', 'OR', ('b3', 'y'))], ['o', 'b3']),
